@@ -531,4 +531,31 @@ theorem init_inv {code : Code} {cert : Cert} (hc : checkCert code cert = true)
     {e : Nat} (he : e ∈ entries code) : Inv cert (initAt e) :=
   ⟨AbsState.init, entry_of_check hc he, .nil 0 0⟩
 
+/-- the frame a certificate frame stands for in the outermost activation -/
+def toR : FrameKind → RFrame
+  | .withF => .withF
+  | .loopF id v r => .loopF v (recOf id r) none
+
+/-- no frame carries a recursion return address: the state belongs to the outermost activation -/
+def noReturn : List RFrame → Bool
+  | [] => true
+  | .withF :: fs => noReturn fs
+  | .loopF _ _ none :: fs => noReturn fs
+  | .loopF _ _ (some _) :: _ => false
+
+/-- in the outermost activation the machine state *is* the certified state -/
+theorem Rel.outermost {cert : Cert} {G c e fs k m} (h : Rel cert G c e fs k m)
+    (hn : noReturn fs = true) : fs = G.map toR ∧ k = c ∧ m = e := by
+  induction h with
+  | nil c e => exact ⟨rfl, rfl, rfl⟩
+  | withF _ ih =>
+    simp only [noReturn] at hn
+    obtain ⟨h1, h2, h3⟩ := ih hn
+    exact ⟨by simp [toR, h1], h2, h3⟩
+  | plain id v r _ ih =>
+    simp only [noReturn] at hn
+    obtain ⟨h1, h2, h3⟩ := ih hn
+    exact ⟨by simp [toR, h1], h2, h3⟩
+  | recur t v rpc cap B0 B _ _ _ _ _ _ _ => simp [noReturn] at hn
+
 end MJ.Bal
